@@ -155,6 +155,13 @@ def run(tier, replay):
             cases.append({"id": 9990 + k, "cmds": [[3, 2]], "steps": [{"a": "send", "k": 1}] + [{"a": "read", "k": 0}] * 2, "pace": "fast", "stallat": 0,
                           "stallms": 0, "grep": grep, "catlimit": 2, "seed": 11 + k, "scale": 100, "lines": [[460, 333]], "shape": "CmdsOne2",
                           "nofinalnl": nl, "drainus": 400})
+        # grep that stops early (max) in files that go on for hundreds of lines behind the stop
+        for k, mx in enumerate([1, 2, 5]):
+            cases.append({"id": 9980 + k, "cmds": [[3, 2]], "steps": [{"a": "send", "k": 1}] + [{"a": "read", "k": 0}] * 2, "pace": "fast", "stallat": 0,
+                          "stallms": 0, "grep": True, "max": mx, "catlimit": 2, "seed": 31 + k, "scale": 100, "lines": [[900, 400]], "shape": "CmdsOne2",
+                          "nofinalnl": k == 1, "drainus": 0})
+        for c in cases:
+            c.setdefault("max", rng.choice([0, 0, 1, 3]) if c.get("grep") else 0)
         for c in cases:
             if "drainus" not in c:
                 c["drainus"] = rng.choice([0, 0, 0, 150]) if sum(sum(x) for x in c["lines"]) > 150 else 0
@@ -233,6 +240,7 @@ def run(tier, replay):
         states += tstates
         # end-to-end over the real SSH transport (real dserver processes, real client binary), free-running
         ssh_runs = e2e.stage_slow(wd, V, rng, tier)
+        e2e.stage_tail_stall(wd, V, tier)        # serverless dcat binary, consumer stalling 6.5 s just before the end
         log("SSH stage: %d client runs against real dserver processes" % ssh_runs)
         cov = {"ssh_slow_consumer_runs": ssh_runs, "states": states, "transitions": trans, "traces_validated_against_impl": len(cases),
                "session_traces_accepted_by_SessionTrace": accepted, "session_traces_checked": len(tv), "trace_binding_selftest": binding_selftest,
